@@ -422,12 +422,40 @@ def write_text(inp, path, rng=None):
         r.shuffle(rows)
     out = list(meta) + list(st.get("comments", []))
     sep = st["sep"]
-    out.append(sep.join(cols))
+    hdr = list(cols)
+    if st.get("header_spelling"):
+        # the numeric part of p<threshold> / q<quantile> / e<member> may be spelled in any way a number can be written
+        hdr = [spell_header(c, r) for c in cols]
+        st["header_as_written"] = list(hdr)
+    out.append(sep.join(hdr))
     for row in rows:
         out.append(sep.join(row))
     with open(path, "w") as f:
         f.write("\n".join(out) + "\n")
     return path
+
+
+def spell_header(col, r):
+    """p10 -> p1e1 / p+10 / p10.0, q0.5 -> q.5 / q5e-1 / q+0.5, e1 -> e+1 / e01 / e1.0: the same number, another spelling"""
+    if col in ("pit", "elev") or col[0] not in "pqe" or not _isnum(col[1:]) or len(col) < 2:
+        return col
+    s = col[1:]
+    v = float(s)
+    opts = [s]
+    if not s.startswith("-"):
+        opts.append("+" + s)
+    if v != 0:
+        m, e = ("%.10e" % v).split("e")
+        m = m.rstrip("0").rstrip(".")
+        opts.append("%se%d" % (m, int(e)))
+    if s.startswith("0.") or s.startswith("-0."):
+        opts.append(s.replace("0.", ".", 1))
+    if "." not in s and "e" not in s:
+        opts.append(s + ".0")
+        if col[0] == "e" and not s.startswith("-"):
+            opts.append("0" + s)
+    opts = [o for o in opts if float(o) == v]
+    return col[0] + r.choice(opts)
 
 
 def cell_value(inp, c, col):
@@ -473,6 +501,14 @@ def write_nc(inp, path, rng=None):
         if rng is not None and r.random() < 0.5:
             for k in order:
                 r.shuffle(order[k])          # NetCDF files may store their dimension entries in any order
+        if rng is not None and (inp["thresholds"] or inp["quantiles"]):
+            # ... and so may the threshold / quantile coordinate (with the cdf / x columns stored in the same order);
+            # own stream, so that the draws of the other writers are unchanged
+            r2 = random.Random("tq-order|%s|%d|%s|%s" % (inp["name"], len(inp["cells"]), inp["thresholds"], inp["quantiles"]))
+            for k, n in (("threshold", len(inp["thresholds"])), ("quantile", len(inp["quantiles"]))):
+                order[k] = list(range(n))
+                if r2.random() < 0.5:
+                    r2.shuffle(order[k])
         st.setdefault("order", order)
         st.setdefault("vars", {"location": True, "lat": True, "lon": True, "altitude": True})
         fits = max(inp["times"]) < 2 ** 31 - 1
@@ -569,13 +605,15 @@ def write_nc(inp, path, rng=None):
         if inp["thresholds"]:
             f.createDimension("threshold", len(inp["thresholds"]))
             v = f.createVariable("threshold", "f4", ("threshold",))
-            v[:] = np.array(inp["thresholds"], "f4")
-            put("cdf", d3 + ("threshold",), lambda c: c.get("p"), len(inp["thresholds"]))
+            oth = st["order"].get("threshold") or list(range(len(inp["thresholds"])))
+            v[:] = np.array([inp["thresholds"][i] for i in oth], "f4")
+            put("cdf", d3 + ("threshold",), lambda c: None if c.get("p") is None else [c["p"][i] for i in oth], len(inp["thresholds"]))
         if inp["quantiles"]:
             f.createDimension("quantile", len(inp["quantiles"]))
             v = f.createVariable("quantile", "f4", ("quantile",))
-            v[:] = np.array(inp["quantiles"], "f4")
-            put("x", d3 + ("quantile",), lambda c: c.get("q"), len(inp["quantiles"]))
+            oq = st["order"].get("quantile") or list(range(len(inp["quantiles"])))
+            v[:] = np.array([inp["quantiles"][i] for i in oq], "f4")
+            put("x", d3 + ("quantile",), lambda c: None if c.get("q") is None else [c["q"][i] for i in oq], len(inp["quantiles"]))
         if inp["members"]:
             f.createDimension("ensemble_member", inp["members"])
             put("ensemble", d3 + ("ensemble_member",), lambda c: c.get("e"), inp["members"])
